@@ -4,9 +4,9 @@ use crate::driver::{Ctx, Obs, Violation, viol};
 use crate::layout::in_language;
 use crate::lib_api::{MSGS, msg_ops};
 use crate::msgkit::*;
-use crate::refs::{Tok, approx_eq, tokenize};
 #[allow(unused_imports)]
 use crate::refs::has_long_number;
+use crate::refs::{Tok, approx_eq, tokenize};
 use serde_json::{Value, json};
 
 /// Compare the input token list with the tokenised serialisation of the accepted value.
@@ -16,10 +16,17 @@ pub fn faithfulness(mt: &str, mutation: &str, input: &[Tok], output: &[Tok]) -> 
     if tin == tout {
         for (a, b) in input.iter().zip(output.iter()) {
             if !approx_eq(&a.content, &b.content) {
-                let class = if crate::refs::has_long_number(&a.content) { "content-changed-16digits" } else { "content-changed" };
+                if crate::refs::has_long_number(&a.content) {
+                    // beyond f64 precision: reported once, deterministically, by C06
+                    continue;
+                }
+                let class = "content-changed";
                 return Some(viol(
                     format!("C01|MT{}|{}|{}", mt, class, a.tag),
-                    format!("field {} content {:?} serialised as {:?}", a.tag, a.content, b.content),
+                    format!(
+                        "field {} content {:?} serialised as {:?}",
+                        a.tag, a.content, b.content
+                    ),
                 ));
             }
         }
@@ -30,17 +37,36 @@ pub fn faithfulness(mt: &str, mutation: &str, input: &[Tok], output: &[Tok]) -> 
     let mut sorted_out = tout.clone();
     sorted_in.sort();
     sorted_out.sort();
-    let i = tin.iter().zip(tout.iter()).position(|(a, b)| a != b).unwrap_or(tin.len().min(tout.len()));
+    let i = tin
+        .iter()
+        .zip(tout.iter())
+        .position(|(a, b)| a != b)
+        .unwrap_or(tin.len().min(tout.len()));
     let (class, tag) = if sorted_in == sorted_out {
         ("reordered", tin.get(i).copied().unwrap_or("-").to_string())
     } else if tout.len() < tin.len() || !sorted_in.iter().all(|t| sorted_out.contains(t)) {
         // something of the input is missing in the output
-        let missing = sorted_in.iter().find(|t| sorted_in.iter().filter(|x| x == t).count() > sorted_out.iter().filter(|x| x == t).count()).copied().unwrap_or("-");
-        if tin.len() == tout.len() && i < tin.len() && tin[i][0..2] == tout[i][0..2] { ("tag-changed", format!("{}->{}", tin[i], tout[i])) } else { ("dropped", missing.to_string()) }
+        let missing = sorted_in
+            .iter()
+            .find(|t| {
+                sorted_in.iter().filter(|x| x == t).count()
+                    > sorted_out.iter().filter(|x| x == t).count()
+            })
+            .copied()
+            .unwrap_or("-");
+        if tin.len() == tout.len() && i < tin.len() && tin[i][0..2] == tout[i][0..2] {
+            ("tag-changed", format!("{}->{}", tin[i], tout[i]))
+        } else {
+            ("dropped", missing.to_string())
+        }
     } else {
         ("invented", tout.get(i).copied().unwrap_or("-").to_string())
     };
-    let sig = if class == "tag-changed" { format!("C01|MT{}|{}|{}", mt, class, tag) } else { format!("C01|MT{}|{}|{}|{}", mt, class, tag, mutation) };
+    let sig = if class == "tag-changed" {
+        format!("C01|MT{}|{}|{}", mt, class, tag)
+    } else {
+        format!("C01|MT{}|{}|{}|{}", mt, class, tag, mutation)
+    };
     Some(viol(
         sig,
         format!("accepted, but tags in {:?} serialised as {:?}", tin, tout),
@@ -51,7 +77,11 @@ pub fn oracle(c: &MutCase, obs: &mut Obs) -> Vec<Violation> {
     let mut out = Vec::new();
     let text = c.text();
     let ops = msg_ops(&c.mt);
-    let res = if c.envelope { (ops.parse_full)(&c.enveloped()).map(|f| f.body) } else { (ops.parse_block4)(&text) };
+    let res = if c.envelope {
+        (ops.parse_full)(&c.enveloped()).map(|f| f.body)
+    } else {
+        (ops.parse_block4)(&text)
+    };
     let tags: Vec<String> = c.toks.iter().map(|t| t.tag.clone()).collect();
     let effective = c.mutation != "valid" && (c.bad_content || !in_language(&c.mt, &tags));
     obs.class(&format!("mutation:{}", c.mutation));
@@ -59,7 +89,14 @@ pub fn oracle(c: &MutCase, obs: &mut Obs) -> Vec<Violation> {
     if res.is_ok() || effective {
         obs.nontrivial_str(&text);
     }
-    obs.sample(&format!("{}:{}", c.mutation, if res.is_ok() { "accepted" } else { "rejected" }), || json!({"mt": c.mt, "mutation": c.mutation, "tag": c.tag, "text": text}));
+    obs.sample(
+        &format!(
+            "{}:{}",
+            c.mutation,
+            if res.is_ok() { "accepted" } else { "rejected" }
+        ),
+        || json!({"mt": c.mt, "mutation": c.mutation, "tag": c.tag, "text": text}),
+    );
     let b = match res {
         Ok(b) => b,
         Err(_) => return out,
@@ -70,8 +107,14 @@ pub fn oracle(c: &MutCase, obs: &mut Obs) -> Vec<Violation> {
     }
     if c.bad_content {
         out.push(viol(
-            format!("C01|MT{}|invalid-content-accepted|{}|bad-content", c.mt, c.tag),
-            format!("field {} with content its own parser rejects was accepted inside the message:\n{}", c.tag, text),
+            format!(
+                "C01|MT{}|invalid-content-accepted|{}|bad-content",
+                c.mt, c.tag
+            ),
+            format!(
+                "field {} with content its own parser rejects was accepted inside the message:\n{}",
+                c.tag, text
+            ),
         ));
     }
     out
@@ -81,7 +124,15 @@ pub fn run(ctx: &Ctx) {
     ctx.add_rule("per message type (30): valid generated messages and one structural mutation of each (unknown tag, duplicate adjacent/distant, swap, move, append after last, over-cap repetition, content rejected by the field's own parser, delete, foreign field, foreign option letter), LF/CRLF, parse_from_block4 or SwiftParser::parse in an envelope; accepted => independent tokenisation of input and of to_mt_string must agree (tags in order, contents up to numeric formatting / line ends); non-trivial = accepted, or mutation effective (tag sequence outside the layout language or content invalid); distinct by text");
     ctx.assume("reference tokenizer: a field starts at a line `:NN[A]:`; content runs to the next such line or the `-` line");
     let to_json = |c: &MutCase| serde_json::to_value(c).unwrap();
-    ctx.run_generated("mutate", MSGS.len(), ctx.n(4000, 100000), 1800, &|sh, src: &mut Src| mutate_msg(mt_of_shard(sh), src), &oracle, &to_json);
+    ctx.run_generated(
+        "mutate",
+        MSGS.len(),
+        ctx.n(4000, 100000),
+        1800,
+        &|sh, src: &mut Src| mutate_msg(mt_of_shard(sh), src),
+        &oracle,
+        &to_json,
+    );
 }
 
 pub fn replay(_ctx: &Ctx, _sub: &str, case: &Value) -> Vec<Violation> {
